@@ -125,6 +125,9 @@ def proj_inst(rng, iid):
         with_restarts(rng, inst)
         inst.pop("incnpt", None)
     if rng.random() < 0.3:
+        # solution in a corner: a box face and a set boundary active at the same point
+        inst.update(prob="target", m=n, bounds="both", corner=True, x0place=["in"] * n, x0feas="in")
+    if rng.random() < 0.3:
         up = {"regression.num_extra_steps": int(_pick(rng, [1, 2]))}
         if rng.random() < 0.6:
             up["regression.momentum_extra_steps"] = True
